@@ -761,6 +761,18 @@ def slice(eng, st, o, lo, hi, line):
         t = eng.coerce(v, INT).t
         t = z3.If(t < 0, z3.If(t + n < 0, 0, t + n), z3.If(t > n, n, t))
         return t
+    def const(v):
+        if v is None:
+            return None
+        t = z3.simplify(eng.coerce(v, INT).t)
+        return t.as_long() if z3.is_int_value(t) and t.as_long() >= 0 else None
+    ca, cb = const(lo), const(hi)
+    # non-negative constant bounds: seq.extract clamps at the end of the sequence by itself
+    if (lo is None or ca is not None) and (hi is None or cb is not None):
+        a0 = ca or 0
+        ln0 = n if hi is None else z3.IntVal(max(cb - a0, 0))
+        yield st, V(o.ty, z3.simplify(z3.SubSeq(o.t, z3.IntVal(a0), ln0)))
+        return
     a = norm(lo, z3.IntVal(0))
     b = norm(hi, n)
     ln = z3.If(b > a, b - a, 0)
@@ -1110,6 +1122,37 @@ def _quant(eng, st, e, q):
     yield st, vbool(t)
 
 
+def sp_exists_split(eng, st, e):
+    """exists_split(lambda p, e: body, s): some split s == p + e satisfies body."""
+    lam = e.args[0]
+    names = [a.arg for a in lam.args.args]
+    if len(names) != 2:
+        raise core.EngineError('exists_split needs a two-argument lambda')
+    sv = eng.spec(e.args[1], st, dict(st.env), modname=eng.modname(st))
+    if sv.ty.kind != 'str':
+        raise core.EngineError('exists_split over a non-str value')
+    env = dict(st.env)
+    env['__parent__'] = st.env
+    consts = [z3.String(eng.name('q_' + n)) for n in names]
+    for n, c in zip(names, consts):
+        env[n] = V(STR, c)
+    rng = [z3.Concat(consts[0], consts[1]) == sv.t]
+    saved = eng.undef
+    eng.undef = []
+    eng.bound_depth += 1
+    try:
+        body = truth(eng.spec(lam.body, st.copy(), env, modname=eng.modname(st)))
+        und = eng.undef
+    finally:
+        eng.undef = saved
+        eng.bound_depth -= 1
+    if und:
+        body = z3.And(z3.Not(z3.Or(*und)), body)
+    t = z3.Exists(consts, z3.And(*(rng + [body])))
+    eng.quants[t.get_id()] = (t, consts, rng, body)
+    yield st, vbool(t)
+
+
 def sp_forall(eng, st, e):
     yield from _quant(eng, st, e, 'forall')
 
@@ -1147,7 +1190,7 @@ def sp_alloc_now(eng, st, e):
     yield st, st.ghost['$alloc']
 
 
-SPECIAL = {'alloc_now': sp_alloc_now, 'old': sp_old, 'forall': sp_forall, 'exists': sp_exists, 'implies': sp_implies,
+SPECIAL = {'alloc_now': sp_alloc_now, 'old': sp_old, 'forall': sp_forall, 'exists': sp_exists, 'exists_split': sp_exists_split, 'implies': sp_implies,
            'typeis': sp_typeis}
 
 
@@ -1819,6 +1862,21 @@ def _to_bytes(eng, st, recv, args, kwargs, line):
 def _exists(eng, st, args, kwargs, line):
     b = z3.Function('fs_exists', S, B)(args[0].t)
     yield st, vbool(b)
+
+
+@lib('os.path.join')
+def _path_join(eng, st, args, kwargs, line):
+    """posixpath.join over str components: a component that starts with '/' discards everything
+    before it; otherwise components are joined with exactly one '/' (assumed contract, POSIX)."""
+    if not args or any(a.ty.kind != 'str' for a in args) or kwargs:
+        raise core.EngineError('os.path.join on non-str arguments at line %d' % line)
+    r = args[0].t
+    for b in args[1:]:
+        b = b.t
+        r = z3.If(z3.PrefixOf(z3.StringVal('/'), b), b,
+                  z3.If(z3.Or(z3.Length(r) == 0, z3.SuffixOf(z3.StringVal('/'), r)),
+                        z3.Concat(r, b), z3.Concat(r, z3.StringVal('/'), b)))
+    yield st, vstr(r)
 
 
 # ---------------------------------------------------------------------------------------------
